@@ -15,8 +15,8 @@ Definition mk_acfg (key : N) (ings : list ingress) (client_id issuer acr_default
      a_prompt_allowed := prompt_allowed; a_scope := scope; a_resource := resource;
      a_par := par; a_use_secret := use_secret; a_iss_supported := iss_supported; a_cookie_strict := strict; a_seg_prefix := seg |}.
 
-Definition entry_login (c : acfg) (q : areq) (rnd : N) (referer par_uri : sval) : list login_out :=
-  login_results c q rnd referer par_uri.
+Definition entry_login (c : acfg) (q : areq) (rnd : N) (referer : sval) (replies : list par_reply) : list login_out :=
+  login_results c q rnd referer replies.
 
 Definition entry_logout (c : acfg) (q : areq) (rnd : N) (redirect_to : sval) : list logout_out :=
   logout_results c q rnd redirect_to.
